@@ -5,8 +5,8 @@ import verif
 
 MC_CFG = '''CONSTANTS
   Procs = %(procs)s
-  Programs <- ProgramsMC
-  PeerScripts <- PeerScriptsMC
+  Programs <- %(programs)s
+  PeerScripts <- %(scripts)s
   MaxChunks = 2
   Dev = {}
 SPECIFICATION Spec
@@ -21,7 +21,7 @@ PROPERTY C05_WritesUnderLock
 CHECK_DEADLOCK FALSE
 '''
 
-TX_KINDS = ["send", "sendel", "encode", "encodeel", "tw", "sendiqres"]
+TX_KINDS = ["send", "sendel", "encode", "encodeel", "tw", "sendiqres", "sendmsgerr", "sendpreserr", "encodemsgerr"]
 
 
 def scenarios(tier, focus):
@@ -42,6 +42,10 @@ def scenarios(tier, focus):
             out.append({"procs": [{"name": "a", "calls": a}, {"name": "b", "calls": b}], "serve": False, "script": [], "big": False, "failclose": True})
         out.append({"procs": [{"name": "a", "calls": ["tx"]}], "serve": True, "script": ["close"], "big": False, "failclose": True})
         out.append({"procs": [{"name": "a", "calls": ["close", "tx"]}], "serve": True, "script": ["stanza_herr"], "big": False, "failclose": True})
+        # SetCloseDeadline then Close, the peer never closes: Serve ends with an error when the deadline passes
+        for a in (["close"], ["tx", "close"]):
+            out.append({"procs": [{"name": "a", "calls": a}], "serve": True, "script": ["deadline"], "big": False})
+        out.append({"procs": [{"name": "a", "calls": ["close"]}], "serve": True, "script": ["stanza_reply", "deadline"], "big": False})
         scripts = [[], ["close"], ["stanza_reply"], ["stanza_herr"], ["streamerr"], ["stanza_reply", "close"], ["stanza", "stanza_herr"]]
         for a in [["close"], ["tx"], ["close", "tx"], ["tx", "close"]]:
             for sc in scripts:
